@@ -857,13 +857,13 @@ theorem canonG_userinfo_subst (puny : Str → Str) (o : Opts) (g : UrlG) (x y m1
       refine ⟨rfl, ?_⟩
       have := H v y hv
       simp only [canonOpt, isEmpty_mid _ _ _ hn1, isEmpty_mid _ _ _ hn2, Bool.false_eq_true, if_false,
-        requote, unquoteAuthItem] at this ⊢
+        requote, unquoteAuthItem, safelyUnquoteAuthItem] at this ⊢
       rw [this]
     · rw [f1, f2]
       refine ⟨?_, rfl⟩
       have := H x t (List.suffix_refl _)
       simp only [canonOpt, isEmpty_mid _ _ _ hn1, isEmpty_mid _ _ _ hn2, Bool.false_eq_true, if_false,
-        requote, unquoteAuthItem] at this ⊢
+        requote, unquoteAuthItem, safelyUnquoteAuthItem] at this ⊢
       rw [this]
   refine canonG_congr puny o g _ hw hw' rfl ?_ ?_ rfl (fun _ => rfl) rfl rfl rfl rfl rfl rfl Iff.rfl
   · simp only [hu, Option.map_some]; exact key.1
